@@ -73,9 +73,15 @@ fn build(e: &Value) -> NFA<Tag> {
         }
         "digit" => NFA::digit(),
         "number" => NFA::number(),
+        // tags_map: "shift" adds t to every tag; "const" maps every tag to t (the decoder's
+        // `tags_map(|_| MatcherTag::Matcher(index))`, which collapses tags)
         "tagmap" => {
             let k = e["t"].as_u64().unwrap_or(0) as u32;
-            build(&e["e"]).tags_map(move |t| t + k)
+            if e["mode"].as_str() == Some("const") {
+                build(&e["e"]).tags_map(move |_| k)
+            } else {
+                build(&e["e"]).tags_map(move |t| t + k)
+            }
         }
         "plus" => build(&e["e"]).some(),
         "opt" => build(&e["e"]).optional(),
@@ -86,16 +92,43 @@ fn build(e: &Value) -> NFA<Tag> {
 }
 
 fn coq_regex(e: &Value) -> String {
-    coq_regex_shift(e, 0)
+    coq_regex_map(e, TagFn::Shift(0))
 }
 
-/// the expression with `shift` added to every tag (what tags_map does to the automaton)
-fn coq_regex_shift(e: &Value, shift: u64) -> String {
-    let coq_regex = |e: &Value| coq_regex_shift(e, shift);
+#[derive(Clone, Copy)]
+enum TagFn {
+    Shift(u64),
+    Const(u64),
+}
+
+impl TagFn {
+    fn apply(self, t: u64) -> u64 {
+        match self {
+            TagFn::Shift(k) => t + k,
+            TagFn::Const(k) => k,
+        }
+    }
+    /// self after the inner map g (tags_map composes: the outer map sees the inner one's results)
+    fn after(self, g: TagFn) -> TagFn {
+        match (self, g) {
+            (TagFn::Const(k), _) => TagFn::Const(k),
+            (TagFn::Shift(a), TagFn::Shift(b)) => TagFn::Shift(a + b),
+            (TagFn::Shift(a), TagFn::Const(b)) => TagFn::Const(a + b),
+        }
+    }
+}
+
+/// the expression with the tag map applied to every tag (what tags_map does to the automaton)
+fn coq_regex_map(e: &Value, f: TagFn) -> String {
+    let coq_regex = |e: &Value| coq_regex_map(e, f);
     match kind(e) {
         "digit" => format!("(Pred {})", cbytes(b"0123456789")),
         "number" => format!("(Plus (Pred {}))", cbytes(b"0123456789")),
-        "tagmap" => coq_regex_shift(&e["e"], shift + e["t"].as_u64().unwrap_or(0)),
+        "tagmap" => {
+            let k = e["t"].as_u64().unwrap_or(0);
+            let g = if e["mode"].as_str() == Some("const") { TagFn::Const(k) } else { TagFn::Shift(k) };
+            coq_regex_map(&e["e"], f.after(g))
+        }
         "pred" => format!("(Pred {})", cbytes(&vbytes(&e["set"]))),
         "lit" => format!("(Lit {})", cbytes(&vbytes(&e["bs"]))),
         "empty" => "Empty".into(),
@@ -104,7 +137,7 @@ fn coq_regex_shift(e: &Value, shift: u64) -> String {
         "plus" => format!("(Plus {})", coq_regex(&e["e"])),
         "opt" => format!("(Opt {})", coq_regex(&e["e"])),
         "many" => format!("(Many {})", coq_regex(&e["e"])),
-        "tag" => format!("(Tag {} {})", e["t"].as_u64().unwrap_or(0) + shift, coq_regex(&e["e"])),
+        "tag" => format!("(Tag {} {})", f.apply(e["t"].as_u64().unwrap_or(0)), coq_regex(&e["e"])),
         _ => "Nothing".into(),
     }
 }
@@ -154,10 +187,10 @@ fn has_kind(e: &Value, k: &str) -> bool {
 
 // ---------------------------------------------------------------- DOT parsing
 
-struct St {
-    edges: Vec<(u8, usize)>,
-    eps: Vec<usize>,
-    tag: Option<u64>,
+pub struct St<T = u64> {
+    pub edges: Vec<(u8, usize)>,
+    pub eps: Vec<usize>,
+    pub tag: Option<T>,
 }
 
 fn unescape(s: &str) -> Option<u8> {
@@ -178,10 +211,24 @@ fn unescape(s: &str) -> Option<u8> {
     }
 }
 
-/// (stop, states with dense ids in order) parsed from `format!("{:?}", nfa)`
+/// (stop, states with dense ids in order) parsed from `format!("{:?}", nfa)`, numeric tags
 fn parse_dot(dot: &str) -> Option<(usize, Vec<St>)> {
+    let (stop, states) = parse_dot_text(dot)?;
+    let mut out = vec![];
+    for s in states {
+        let tag = match s.tag {
+            None => None,
+            Some(t) => Some(t.parse::<u64>().ok()?),
+        };
+        out.push(St { edges: s.edges, eps: s.eps, tag });
+    }
+    Some((stop, out))
+}
+
+/// the same with the tag as the text between the braces of the label
+pub fn parse_dot_text(dot: &str) -> Option<(usize, Vec<St<String>>)> {
     let mut stop = None;
-    let mut states: Vec<St> = vec![];
+    let mut states: Vec<St<String>> = vec![];
     for line in dot.lines() {
         let l = line.trim();
         if l.is_empty() || l.starts_with("digraph") || l.starts_with("rankdir") || l == "}" {
@@ -223,7 +270,7 @@ fn parse_dot(dot: &str) -> Option<(usize, Vec<St>)> {
                 Some(p) => {
                     let body = attr[p + 8..].strip_suffix("\"]")?;
                     let body = body.strip_prefix(&format!("{} {{", id))?.strip_suffix('}')?;
-                    Some(body.parse::<u64>().ok()?)
+                    Some(body.to_string())
                 }
             };
             states.push(St { edges: vec![], eps: vec![], tag });
@@ -232,7 +279,7 @@ fn parse_dot(dot: &str) -> Option<(usize, Vec<St>)> {
     Some((stop?, states))
 }
 
-fn coq_nfa(stop: usize, states: &[St]) -> String {
+fn coq_nfa(start: usize, stop: usize, states: &[St]) -> String {
     let sts = states.iter().map(|s| {
         format!(
             "mkst {} {} {}",
@@ -244,7 +291,7 @@ fn coq_nfa(stop: usize, states: &[St]) -> String {
             }
         )
     });
-    format!("(mknfa 0%nat {} {})", cnat(stop), clist(sts))
+    format!("(mknfa {} {} {})", cnat(start), cnat(stop), clist(sts))
 }
 
 // ---------------------------------------------------------------- DFA observation
@@ -308,25 +355,19 @@ struct Walk<'a> {
 }
 
 impl<'a> Walk<'a> {
-    fn node(&mut self, state: Option<DFAState>, prefix: &[u8]) -> Option<(bool, bool, String)> {
+    /// what the public API says about the string: transition_many(start, s), info of that state,
+    /// matches(s); `stepped` (the state reached by single transitions) is only compared
+    fn node(&mut self, stepped: Option<DFAState>, prefix: &[u8]) -> (Option<(bool, bool, String)>, bool) {
         let many = self.dfa.transition_many(self.dfa.start(), prefix.iter().copied());
-        if many != state {
+        if many != stepped {
             self.consistent = false;
         }
         let m = self.dfa.matches(prefix.iter().copied());
-        match state {
-            None => {
-                if m {
-                    self.consistent = false;
-                }
-                None
-            }
+        match many {
+            None => (None, m),
             Some(q) => {
                 let i = self.dfa.info(q);
-                if m != i.is_accepting {
-                    self.consistent = false;
-                }
-                Some((i.is_accepting, i.is_terminal, coq_tags(&i.tags)))
+                (Some((i.is_accepting, i.is_terminal, coq_tags(&i.tags))), m)
             }
         }
     }
@@ -334,35 +375,35 @@ impl<'a> Walk<'a> {
     fn obs(&mut self, state: Option<DFAState>, prefix: &mut Vec<u8>, depth: usize) -> String {
         self.nodes += 1;
         match self.node(state, prefix) {
-            None => {
+            (None, m) => {
                 self.rejected += 1;
-                "Dead".to_string()
+                format!("(Dead {})", cbool(m))
             }
-            Some((acc, term, tags)) => {
+            (Some((acc, term, tags)), m) => {
                 self.live += 1;
-                if acc {
+                if m {
                     if self.accepted.len() < 12 {
                         self.accepted.push(prefix.clone());
                     }
                 } else {
                     self.rejected += 1;
                 }
-                let q = state.unwrap();
-                let kids = if depth == 0 {
-                    vec![]
-                } else {
-                    let sigma = self.sigma.clone();
-                    sigma
-                        .iter()
-                        .map(|c| {
-                            prefix.push(*c);
-                            let k = self.obs(self.dfa.transition(q, *c), prefix, depth - 1);
-                            prefix.pop();
-                            k
-                        })
-                        .collect()
+                let kids: Vec<String> = match state {
+                    Some(q) if depth > 0 => {
+                        let sigma = self.sigma.clone();
+                        sigma
+                            .iter()
+                            .map(|c| {
+                                prefix.push(*c);
+                                let k = self.obs(self.dfa.transition(q, *c), prefix, depth - 1);
+                                prefix.pop();
+                                k
+                            })
+                            .collect()
+                    }
+                    _ => vec![],
                 };
-                format!("Live {} {} {} {}", cbool(acc), cbool(term), tags, clist(kids.into_iter().map(|k| if k == "Dead" { k } else { format!("({})", k) })))
+                format!("(Live {} {} {} {} {})", cbool(acc), cbool(term), cbool(m), tags, clist(kids))
             }
         }
     }
@@ -373,16 +414,43 @@ impl<'a> Walk<'a> {
             state = state.and_then(|q| self.dfa.transition(q, *c));
         }
         let o = match self.node(state, s) {
-            None => "Dead".to_string(),
-            Some((acc, term, tags)) => {
-                if acc && self.accepted.len() < 16 {
+            (None, m) => format!("(Dead {})", cbool(m)),
+            (Some((acc, term, tags)), m) => {
+                if m && self.accepted.len() < 16 {
                     self.accepted.push(s.to_vec());
                 }
-                format!("(Live {} {} {} [])", cbool(acc), cbool(term), tags)
+                format!("(Live {} {} {} {} [])", cbool(acc), cbool(term), cbool(m), tags)
             }
         };
         format!("({}, {})", cbytes(s), o)
     }
+}
+
+/// the shortest string (smallest bytes first) leading to every state of the DFA
+fn shortest_per_state(dfa: &DFA<Tag>, limit: usize) -> Vec<Vec<u8>> {
+    let mut seen: BTreeMap<DFAState, Vec<u8>> = BTreeMap::new();
+    let mut queue = VecDeque::new();
+    seen.insert(dfa.start(), vec![]);
+    queue.push_back(dfa.start());
+    let mut out = vec![];
+    while let Some(q) = queue.pop_front() {
+        let s = seen[&q].clone();
+        out.push(s.clone());
+        if out.len() >= limit {
+            break;
+        }
+        for c in 0..=255u8 {
+            if let Some(t) = dfa.transition(q, c) {
+                if !seen.contains_key(&t) {
+                    let mut s2 = s.clone();
+                    s2.push(c);
+                    seen.insert(t, s2);
+                    queue.push_back(t);
+                }
+            }
+        }
+    }
+    out
 }
 
 fn str_hash(s: &str) -> u64 {
@@ -435,21 +503,50 @@ struct Observed {
     rejected: usize,
 }
 
-fn observe(e: &Value, sigma: &[u8], len: usize, given: &[Vec<u8>], seed: u64) -> Option<Observed> {
+enum Obs {
+    Built(Observed),
+    TooBig,
+}
+
+fn observe(e: &Value, sigma: &[u8], len: usize, given: &[Vec<u8>], seed: u64) -> Obs {
     let nfa = build(e);
     let dot = format!("{:?}", nfa);
+    let (start, stop_hook) = nfa.verif_ends();
     // an unparsable graph or ids that are not 0..size-1 in order is a disagreement with the
     // model (agree = false), not a crash: the language may still be right
     let (stop, states) = match parse_dot(&dot) {
-        Some(x) if x.1.len() == nfa.size() => x,
+        Some(x) if x.1.len() == nfa.size() && x.0 == stop_hook => x,
         _ => (0, vec![]),
     };
     let dfa = nfa.compile();
-    let (cd, dfa_size) = coq_dfa(&dfa)?;
-    let mut w = Walk { dfa: &dfa, sigma: sigma.to_vec(), consistent: true, nodes: 0, live: 0, accepted: vec![], rejected: 0 };
-    let tree = w.obs(Some(dfa.start()), &mut vec![], len);
+    let (cd, dfa_size) = match coq_dfa(&dfa) {
+        Some(x) => x,
+        None => return Obs::TooBig,
+    };
+    // the deepest tree (at most `len`) within the node budget
+    let mut depth = len;
+    let (mut w, tree) = loop {
+        let mut w = Walk { dfa: &dfa, sigma: sigma.to_vec(), consistent: true, nodes: 0, live: 0, accepted: vec![], rejected: 0 };
+        let tree = w.obs(Some(dfa.start()), &mut vec![], depth);
+        if w.nodes <= 700 || depth <= 1 {
+            break (w, tree);
+        }
+        depth -= 1;
+    };
     let mut rng = Rng::new(seed);
     let mut probes: Vec<String> = given.iter().map(|s| w.probe(s)).collect();
+    // every state of the DFA is visited: the shortest string to it, and that string extended by
+    // one symbol of sigma
+    for s in shortest_per_state(&dfa, 48) {
+        if s.len() > depth {
+            probes.push(w.probe(&s));
+            if !sigma.is_empty() {
+                let mut s2 = s.clone();
+                s2.push(*rng.pick(sigma));
+                probes.push(w.probe(&s2));
+            }
+        }
+    }
     for _ in 0..8 {
         let s = guided(&dfa, &mut rng, sigma, 14);
         probes.push(w.probe(&s));
@@ -459,16 +556,16 @@ fn observe(e: &Value, sigma: &[u8], len: usize, given: &[Vec<u8>], seed: u64) ->
         w.consistent = false;
     }
     let coq = format!(
-        "Built {} {} {} {} ({}) {} {}",
+        "Built {} {} {} {} {} {} {}",
         coq_regex(e),
         cbytes(sigma),
-        coq_nfa(stop, &states),
+        coq_nfa(start, stop, &states),
         cd,
         tree,
         clist(probes),
         cbool(w.consistent)
     );
-    Some(Observed { coq, nfa_size: states.len(), dfa_size, nodes: w.nodes, live: w.live, accepted: w.accepted, rejected: w.rejected })
+    Obs::Built(Observed { coq, nfa_size: states.len(), dfa_size, nodes: w.nodes, live: w.live, accepted: w.accepted, rejected: w.rejected })
 }
 
 fn choose_sigma(e: &Value, seed: u64) -> Vec<u8> {
@@ -495,21 +592,9 @@ fn choose_sigma(e: &Value, seed: u64) -> Vec<u8> {
     sigma
 }
 
-fn choose_len(k: usize) -> usize {
-    let mut len = 0;
-    loop {
-        // nodes of the complete tree of depth len+1
-        let mut total = 0usize;
-        let mut p = 1usize;
-        for _ in 0..=(len + 1) {
-            total += p;
-            p = p.saturating_mul(k.max(1));
-        }
-        if total > 500 || len >= 6 {
-            return len.max(1);
-        }
-        len += 1;
-    }
+fn choose_len(_k: usize) -> usize {
+    // `observe` reduces the depth until the tree fits the node budget
+    6
 }
 
 pub fn run(input: &Value) -> Case {
@@ -523,7 +608,7 @@ pub fn run(input: &Value) -> Case {
     let len = input.get("len").and_then(|v| v.as_u64()).map(|v| v as usize).unwrap_or_else(|| choose_len(sigma.len()));
     let given: Vec<Vec<u8>> = input.get("probes").and_then(|v| v.as_array()).map(|a| a.iter().map(vbytes).collect()).unwrap_or_default();
     let (e2, s2, g2) = (e.clone(), sigma.clone(), given.clone());
-    let r = catch(move || observe(&e2, &s2, len, &g2, seed)).flatten();
+    let r = catch(move || observe(&e2, &s2, len, &g2, seed));
     let mut j = input.clone();
     let named = named_class(&e);
     let mut tags = vec![
@@ -542,7 +627,12 @@ pub fn run(input: &Value) -> Case {
             tags.push("res=panic".into());
             Case { coq: format!("Crashed {}", coq_regex(&e)), json: j, tags, nontrivial: true }
         }
-        Some(o) => {
+        Some(Obs::TooBig) => {
+            j["impl"] = json!("skipped: more than 3000 DFA states");
+            tags.push("res=skipped".into());
+            Case { coq: format!("Skipped {}", coq_regex(&e)), json: j, tags, nontrivial: false }
+        }
+        Some(Obs::Built(o)) => {
             j["impl"] = json!({
                 "nfa_states": o.nfa_size, "dfa_states": o.dfa_size, "strings": o.nodes, "live": o.live,
                 "accepted": o.accepted.iter().map(|s| jbytes(s)).collect::<Vec<_>>(),
@@ -574,6 +664,15 @@ fn rand_set(rng: &mut Rng, al: &[u8]) -> Vec<u8> {
     s.into_iter().collect()
 }
 
+/// a literal when the bytes are a str, otherwise the same language as a sequence of one-byte predicates
+fn lit_safe(bs: &[u8]) -> Value {
+    if std::str::from_utf8(bs).is_ok() {
+        lit(bs)
+    } else {
+        nary("seq", bs.iter().map(|b| pred(&[*b])).collect())
+    }
+}
+
 fn rand_leaf(rng: &mut Rng, al: &[u8]) -> Value {
     match rng.below(12) {
         0 => {
@@ -596,9 +695,9 @@ fn rand_leaf(rng: &mut Rng, al: &[u8]) -> Value {
         6 | 7 => {
             let n = 2 + rng.below(2) as usize;
             let bs: Vec<u8> = (0..n).map(|_| *rng.pick(al)).collect();
-            lit(&bs)
+            lit_safe(&bs)
         }
-        _ => lit(&[*rng.pick(al)]),
+        _ => lit_safe(&[*rng.pick(al)]),
     }
 }
 
@@ -687,10 +786,38 @@ pub fn generate(rng: &mut Rng, n: usize, tier: &str) -> Vec<Value> {
     let mut v = vec![];
     // exhaustive small part
     let mut memo = BTreeMap::new();
-    let max_size = if thorough { 5 } else { 4 };
+    let max_size = if thorough { 6 } else { 5 };
     for size in 1..=max_size {
         for e in enumerate(size, &mut memo) {
-            v.push(json!({"e": e, "sigma": [97, 98, 122], "len": 5}));
+            // size 6 (23k expressions) is sampled
+            if size == 6 && str_hash(&e.to_string()) % 4 != 0 {
+                continue;
+            }
+            v.push(json!({"e": e, "sigma": [97, 98, 122], "len": 6}));
+        }
+    }
+    // small expressions over predicates and tags (not in the enumeration above)
+    {
+        let leaves = [pred(b"ab"), pred(b"b"), lit(b"a"), lit(b"ab"), mk("empty")];
+        let mut small: Vec<Value> = leaves.to_vec();
+        for a in leaves.iter() {
+            for k in ["plus", "opt", "many"] {
+                small.push(un(k, a.clone()));
+            }
+            for b in leaves.iter() {
+                small.push(nary("seq", vec![a.clone(), b.clone()]));
+            }
+        }
+        let n_small = small.len();
+        for i in 0..n_small {
+            for j in 0..n_small {
+                if (i * 31 + j * 17) % (if thorough { 3 } else { 11 }) != 0 {
+                    continue;
+                }
+                let (a, b) = (small[i].clone(), small[j].clone());
+                v.push(json!({"e": nary("choice", vec![tag(1, a.clone()), tag(2, b.clone())]), "sigma": [97, 98, 122]}));
+                v.push(json!({"e": un("opt", nary("seq", vec![a, b])), "sigma": [97, 98, 122]}));
+            }
         }
     }
     // opt / plus over every expression of size <= 3 wrapped in a context that exposes a wrong loop
@@ -740,7 +867,7 @@ pub fn generate(rng: &mut Rng, n: usize, tier: &str) -> Vec<Value> {
                       "probes": [b"\x1b[0;38:5:1;mAaBbm".to_vec(), b"\x1b[m".to_vec(), b"\x1b[;;m".to_vec(), b"\x1b[1Aam".to_vec()]}));
     }
     let fixed = v.len();
-    let als: [&[u8]; 4] = [b"ab", b"abc", b"a", b"ab;0"];
+    let als: [&[u8]; 8] = [b"ab", b"abc", b"a", b"ab;0", b"\x1b[0;", &[0, 255, 128], &[0xc3, 0xa9, b'a'], &[0x1b, 0x7f, 0x80, 0xff]];
     while v.len() < fixed + n {
         let al = *rng.pick(&als);
         let d = 2 + rng.below(4) as usize; // depth <= 5 below the root
@@ -758,6 +885,11 @@ pub fn generate(rng: &mut Rng, n: usize, tier: &str) -> Vec<Value> {
                         alts.push(nary("choice", vec![t1, t2]));
                     } else if rng.chance(1, 8) {
                         alts.push(a); // an untagged alternative
+                    } else if rng.chance(1, 4) {
+                        // the decoder's shape: .tags_map(|_| Matcher(i)).tag_stop_state(Matcher(i)),
+                        // here over an operand that may itself carry tags (they collapse to i)
+                        let inner = if rng.chance(1, 2) { rand_expr(rng, al, d - 1, true) } else { a };
+                        alts.push(tag(i as u32, json!({"k": "tagmap", "mode": "const", "t": i, "e": inner})));
                     } else {
                         alts.push(tag(if rng.chance(1, 5) { 0 } else { i as u32 }, a));
                     }
